@@ -79,7 +79,9 @@ def mangle(s):
 # ---------------------------------------------------------------- prelude
 declare_datatype('Cell', [('CNone', []), ('CS', [('sval', STR)]), ('CI', [('ival', INT)]), ('CF', [('fval', REAL)]),
                           ('CB', [('bval', BOOL)]), ('CObj', [('oid', INT)]), ('CL', [('lref', INT)])])
+declare_datatype('JKey', [('K1', [('k1', 'Cell')]), ('KN', [('kn', SeqS('Cell'))])])
 smt.declare_sort('Key')
+TJKey = PT('jkey')
 CELL = 'Cell'
 REC = SeqS(CELL)        # value of a record
 
@@ -129,6 +131,8 @@ def sort_of(pt):
         return CELL
     if k == 'key':
         return 'Key'
+    if k == 'jkey':
+        return 'JKey'
     if k in ('list', 'dict', 'set', 'obj', 'ddict'):
         return INT
     if k == 'seq':
@@ -242,6 +246,14 @@ def coerce(sv, pt):
             inner = sv.pt.args[0]
             v = coerce(SV(inner, opt_val(sv.pt, sv.t)), TCell)
             return SV(TCell, Ite(opt_is_none(sv.pt, sv.t), CNone(), v.t))
+    if k == 'jkey':
+        if s in ('cell', 'int', 'str', 'none'):
+            return SV(pt, dt_ctor('JKey', 'K1', (coerce(sv, TCell).t,)))
+        if s == 'seq' and sv.pt.args[0].kind == 'cell':
+            return SV(pt, dt_ctor('JKey', 'KN', (sv.t,)))
+        if s == 'pytuple':
+            parts = [smt.Unit(coerce(x, TCell).t) for x in sv.py]
+            return SV(pt, dt_ctor('JKey', 'KN', (smt.Concat(*parts) if parts else smt.Empty(SeqS('Cell')),)))
     if k == 'opt':
         if s == 'none':
             return SV(pt, opt_none(pt))
@@ -386,6 +398,8 @@ def parse_type(node, classes=None):
             return PT('mtag')
         if n == 'Opaque':
             return PT('opaque')
+        if n == 'JKey':
+            return PT('jkey')
         base = {'Int': TInt, 'Bool': TBool, 'Str': TStr, 'Float': TFloat, 'Cell': TCell, 'Key': TKey, 'NoneT': TNone,
                 'Rec': TList(TCell), 'RecV': TSeq(TCell)}
         if n in base:
